@@ -208,6 +208,60 @@ def _together(which, order, layout):
         return rt.ok()
 
 
+RL_NEW = ['link-to-another-file', 'link-to-a-directory', 'dangling-link', 'nothing']
+RL_SPELL = [(['/v/d/ln'], '/'), (['ln'], '/v/d'), (['./ln'], '/v/d')]
+
+
+def _restore_named(newk, spell, kind):
+    """the reader side of 'the link itself': a trashed symbolic link is brought back with `trash-restore --overwrite PATH`
+    where PATH names the location of the link - at which ANOTHER link exists meanwhile.  The path names the link, not
+    what the new link points to: the trashed link is offered and put back in place of the new one"""
+    with rt.untraced():
+        argv, cwd = RL_SPELL[spell]
+        lk = ['link-file', 'link-dir', 'dangling'][kind]
+        rt.begin(('restore-named-link', RL_NEW[newk], argv[0], lk))
+        td = '/v/.Trash-1000'
+        nodes = [W.d('/h'), W.d('/v/d'), W.d('/v/other'), W.f('/v/other/new-target', 'NEW', 0o644, 700), W.d('/v/other/new-dir'),
+                 W.f('/v/other/new-dir/inside', 'INSIDE', 0o644, 701), W.f('/v/keep', 'KEEP', 0o644, 800)] + K.sentinels('/v/out')
+        nodes += K.trashed(td, 'ln', 'd/ln', '2020-01-02T00:00:00', lk, 2000)
+        nodes += K.trashed(td, 'inside', 'other/new-dir/inside', '2020-01-01T00:00:00', 'file', 2040)  # (something trashed from where the new link points)
+        nk = RL_NEW[newk]
+        if nk == 'link-to-another-file':
+            nodes.append(W.l('/v/d/ln', '/v/other/new-target', 710))
+        elif nk == 'link-to-a-directory':
+            nodes.append(W.l('/v/d/ln', '../other/new-dir', 711))
+        elif nk == 'dangling-link':
+            nodes.append(W.l('/v/d/ln', 'nowhere', 712))
+        m, res = scen.run_model(W.W(mounts=K.MOUNTS, cwd=cwd, nodes=nodes), [{'snap': '/'}, C('restore', ['--overwrite'] + argv, scen.env(), stdin=['0'], cwd=cwd), {'snap': '/'}])
+        before, r, after = res
+        label = 'restore-named-link:%s-in-place:%s' % (nk, lk)
+        if r['exc']:
+            return rt.fail('C18:traceback:%s:%s' % (r['exc'].split(':')[0], label), r['exc'])
+        lst = K.restore_listing(r['out'])
+        if [p_ for (_, _, p_) in lst] != ['/v/d/ln']:
+            return rt.fail('C18:restore-followed-the-named-link:' + label, 'trash-restore --overwrite %s offers %r, expected the link trashed from /v/d/ln; stdout %r' % (argv[0], lst, r['out'][-200:]))
+        if nk == 'link-to-a-directory':
+            # (what --overwrite does onto a link to a directory is C06's recorded finding: the entry is moved INSIDE the
+            #  linked directory; here only the question which entry the PATH designates is asked)
+            return rt.ok()
+        want = scen.sub(before, td + '/files/ln')
+        got = scen.sub(after, '/v/d/ln')
+        if got is None or got[0] != 'l' or got[1] != want[1] or scen.sub(after, td + '/files/ln') is not None:
+            return rt.fail('C18:link-not-restored-as-link:' + label, 'at /v/d/ln: %r, trashed link was %r; exit %r stderr %r' % (got, want, r['exit'], r['err'][-200:]))
+        for keepp in ('/v/other/new-target', '/v/other/new-dir'):
+            if scen.sub(after, keepp) != scen.sub(before, keepp):
+                return rt.fail('C18:target-touched:' + label, keepp)
+        return rt.ok()
+
+
+def w_restore_named(newk: int, spell: int, kind: int) -> str:
+    """
+    pre: 0 <= newk < 4 and 0 <= spell < 3 and 0 <= kind < 3
+    post: _ == ''
+    """
+    return _restore_named(rt.sel(newk, 4), rt.sel(spell, 3), rt.sel(kind, 3))
+
+
 def w_together(which: int, order: int, layout: int) -> str:
     """
     pre: 0 <= which < 5 and 0 <= order < 2 and 0 <= layout < 3
@@ -230,6 +284,8 @@ def obligations(tier):
         CH('K_location_only_parent_resolved', MOD, 'k_location', timeout=400 if tier == 'quick' else 1800, partitions=[5 if tier == 'quick' else 8], engine='K', regime='traced',
            encodes=['OriginalLocation.for_file', 'Fs.parent_realpath2'], stubs=['realpath -> recorder', 'posixpath.normpath -> recorder answering with a free symbolic string'],
            bounds='argument: any str 1<=len<=3; its normal form: ANY str 1<=len<=%d' % (5 if tier == 'quick' else 8)),
+        CH('W_restore_names_the_location_of_a_link', MOD, 'w_restore_named', timeout=300, engine='W', regime='selector', encodes=K.RESTORE_FUNCS + ['RestoreArgParser.parse_restore_args'], stubs=K.STUBS,
+           bounds='trash-restore --overwrite PATH where PATH is the location of a trashed link (3 kinds) at which another link (to a file, to a directory, dangling) or nothing exists now; 3 spellings of PATH'),
         CH('W_link_named_together_with_its_target', MOD, 'w_together', timeout=300, engine='W', regime='selector', encodes=K.PUT_FUNCS, stubs=K.STUBS,
            bounds='one invocation naming a link and its target (file, directory, another link, a second link to the same file, the directory spelled with a slash) in both orders x 3 layouts'),
         CH('W_link_x_slashes_x_via_x_layout', MOD, 'w_main', timeout=900, partitions=list(range(4)), engine='W', regime='selector',
